@@ -53,11 +53,32 @@ def instance_memos(mod, cls):
                 c = a[2].as_atom()
                 if c and call_name(c) == "getattr" and c[2] and c[2][0].key() == "self" and _str(c[2][1]):
                     dict_tested.add(_str(c[2][1]))
+        # last-value memo:  cached = getattr(self, "_x", None); if cached is not None and cached[0] == key: ... ; setattr(self, "_x", (key, ...))
+        got = set()
+        for e in ev.events:
+            for val in (e.value,):
+                if val is None:
+                    continue
+                for a in find_atoms(val, lambda a: a[0] == "call" and call_name(a) == "getattr" and len(a[2]) == 3 and a[2][0].key() == "self"
+                                    and a[2][2].key() == "None"):
+                    if _str(a[2][1]):
+                        got.add(_str(a[2][1]))
         for e in ev.events:
             if e.kind == "call" and call_name(e.value.as_atom() or ()) == "setattr" and e.extra["args"][0].key() == "self":
                 s = _str(e.extra["args"][1])
                 if s in tested:
                     memos[s] = (fn.name, e.node, "attr")
+                elif s in got and len(e.extra["args"]) == 3:
+                    val = e.extra["args"][2]
+                    keyt = ()
+                    for t in ev.events:
+                        if t.kind != "test":
+                            continue
+                        for a in find_atoms(t.value, lambda a: a[0] == "eq"):
+                            for x, y in ((a[1], a[2]), (a[2], a[1])):
+                                if f"getattr(self, '{s}', None)" in x.key():
+                                    keyt = (y,)
+                    memos[s] = (fn.name, e.node, "keyed", keyt, val)
             if e.kind == "store":
                 t = e.target.as_atom()
                 if t and t[0] == "attr" and t[1].key() == "self" and t[2] in tested:
@@ -65,10 +86,10 @@ def instance_memos(mod, cls):
                 if t and t[0] == "sub":
                     root = alias_path(t[1])
                     if root in dict_tested:
-                        memos[root] = (fn.name, e.node, "dict", tuple(t[2]))
+                        memos[root] = (fn.name, e.node, "dict", tuple(t[2]), e.value)
                     c = t[1].as_atom()
                     if c and call_name(c) == "getattr" and c[2] and c[2][0].key() == "self" and _str(c[2][1]) in dict_tested:
-                        memos[_str(c[2][1])] = (fn.name, e.node, "dict", tuple(t[2]))
+                        memos[_str(c[2][1])] = (fn.name, e.node, "dict", tuple(t[2]), e.value)
     return {k: v for k, v in memos.items() if not k.startswith("_have_warned") and k not in _dead_memos(mod, cls, memos)}
 
 
@@ -193,6 +214,27 @@ def check_mutators_invalidate(chk, rule, rel, cls, memos, mutators, fx=None):
                      f" (writes: {[w.how for w in ws][:3]})")
 
 
+def check_memo_key(chk, rule, rel, cls, name, info):
+    """A keyed memo (dictionary entry or last-value memo) must be keyed by everything its value is computed from."""
+    if len(info) <= 4 or info[2] not in ("dict", "keyed"):
+        return
+    mod = chk.repo.module(rel)
+    getter, node = info[0], info[1]
+    fn0 = mod.funcs.get(f"{cls}.{getter}")
+    params = {a.arg for a in fn0.args.args + fn0.args.kwonlyargs} - {"self", "cls"} if fn0 is not None else set()
+    if fn0 is not None and fn0.args.kwarg:
+        params.add(fn0.args.kwarg.arg)
+    deps = _names(info[4], params)
+    have = set()
+    for kt in info[3]:
+        have |= _names(_drop_lossy(kt), params)
+    missing = sorted(deps - have)
+    chk.ob(rule, rel, f"{cls}.{getter}", f"the key of memo {name} determines every argument the stored value is computed from "
+           "(an argument that only enters through floor/round/int/len/shape is not determined)", not missing, node=node,
+           fingerprint=f"memo-key:{name}", expected=f"key covering {sorted(deps)}",
+           found=f"key {[str(k)[:60] for k in info[3]]} does not determine {missing}")
+
+
 def class_memo_discipline(chk, rule, rel, cls, allow=None, attr_types=None, state=None):
     """Generic G4 for one class: every memo (not allow-listed) must be invalidated by every method that writes what it reads."""
     allow = allow or {}
@@ -203,7 +245,8 @@ def class_memo_discipline(chk, rule, rel, cls, allow=None, attr_types=None, stat
     for name, info in sorted(memos.items()):
         getter, node, kind = info[0], info[1], info[2]
         reads = set(state) if state else (read_attrs(mod, cls, getter) - set(memos) - set(allow))
-        if kind == "dict" and len(info) > 3 and info[3]:
+        check_memo_key(chk, rule, rel, cls, name, info)
+        if kind in ("dict", "keyed") and len(info) > 3 and info[3]:
             # attributes that are part of the dictionary key cannot go stale
             names = {f.name for f in mod.methods(cls)}
             for kt in info[3]:
@@ -284,6 +327,19 @@ def _names(term: P, params):
     return out
 
 
+LOSSY = {"floor", "ceil", "round", "int", "len", "numpy.floor", "numpy.ceil", "numpy.round", "numpy.rint", "numpy.trunc", "numpy.sign", "type", "id",
+         "numpy.shape", "numpy.size", "bool", "abs", "numpy.abs", "hash", "numpy.fix"}
+
+
+def _drop_lossy(term: P) -> P:
+    """Replace every sub-term under a many-to-one function by an opaque constant: what is left is what the key determines."""
+    m = {}
+    for a in find_atoms(term, lambda a: (a[0] == "call" and (call_name(a) in LOSSY)) or (a[0] == "attr" and a[2] in ("shape", "size", "ndim", "dtype"))
+                        or (a[0] == "bin" and a[1] in ("FloorDiv", "Mod"))):
+        m[a] = P.atom(("const", "<lossy>"))
+    return term.subs(m) if m else term
+
+
 def _cache_findings(mod, rel, fx=None):
     """[(qualname, node, fingerprint, ok, expected, found)] for module-level and decorator caches of one module."""
     out = []
@@ -292,7 +348,7 @@ def _cache_findings(mod, rel, fx=None):
             fn = mod.funcs[qual]
             params = {a.arg for a in fn.args.args + fn.args.kwonlyargs} - {"self", "cls"}
             deps = {"self." + x for x in _self_attrs(e.value)} | _names(e.value, params)
-            have = {"self." + x for x in _self_attrs(key)} | _names(key, params)
+            have = {"self." + x for x in _self_attrs(_drop_lossy(key))} | _names(_drop_lossy(key), params)
             ext = reads_external_state(mod, fn)
             missing = sorted(deps - have)
             out.append((qual, e.node, f"modcache:{name}", not missing and not ext,
